@@ -2,7 +2,8 @@ import Driver.Run
 import Driver.Fam.Cluster
 import Driver.Fam.CliRender
 import Driver.Fam.Remote2
+import Driver.Fam.GoCase
 open Driver
 /-- families of area "cluster" -/
 def main (args : List String) : IO UInt32 := run [Fam.cluster_dump, Fam.cluster_files, Fam.remote, Fam.cli,
-       Fam.repeat_, Fam.order, Fam.concurrent, Fam.repeat_cli, Fam.catmut, Fam.clirender, Fam.exec, Fam.remote_refresh] args
+       Fam.repeat_, Fam.order, Fam.concurrent, Fam.repeat_cli, Fam.catmut, Fam.clirender, Fam.exec, Fam.remote_refresh, Fam.GoCaseFam.gocase] args
